@@ -22,6 +22,8 @@ val pred : nat -> nat
 
 val add : nat -> nat -> nat
 
+val eqb : bool -> bool -> bool
+
 module Nat :
  sig
   val eqb : nat -> nat -> bool
@@ -46,6 +48,8 @@ val concat : 'a1 list list -> 'a1 list
 val map : ('a1 -> 'a2) -> 'a1 list -> 'a2 list
 
 val fold_left : ('a1 -> 'a2 -> 'a1) -> 'a2 list -> 'a1 -> 'a1
+
+val existsb : ('a1 -> bool) -> 'a1 list -> bool
 
 val firstn : nat -> 'a1 list -> 'a1 list
 
@@ -429,3 +433,37 @@ val db_scan_range :
   db -> z list -> z list -> nat option -> (z list * z list) list res
 
 val db_scan_from_pinned : db -> z list -> bool -> (z list * z list) list res
+
+type tid = nat
+
+val w_is_free : z -> bool
+
+val w_set_locked : z -> z
+
+val w_obsolete : z
+
+type event =
+| ERLock of tid * z
+| ESpin of tid
+| ECheck of tid * z * z
+| EUpgrade of tid * z * bool
+| EWUnlock of tid * z
+| EWObsolete of tid
+| EStore of tid * nat * z
+| ELoad of tid * nat * z
+
+type lstate = { lw : z; lmem : z list; guards : tid list }
+
+val linit : nat -> lstate
+
+val set_nth : nat -> z -> z list -> z list
+
+val remove_tid : tid -> tid list -> tid list
+
+val holds : lstate -> tid -> bool
+
+val lstep : lstate -> event -> lstate option
+
+val lrun : lstate -> event list -> lstate option
+
+val lrun_diag : lstate -> event list -> nat -> lstate * nat option
